@@ -358,8 +358,10 @@ func c07ErrStatus(err error) int {
 
 // ---- the deep class: values nested far beyond the generator's usual depth, along the root's self-typed field ----
 
-// nesting depths of the deep class (message levels below the root), visited in this order
+// nesting depths of the deep class (message levels below the root), visited in this order; the judge's cost grows with
+// depth x size, so 1500 and 5000 are left to the thorough tier
 var c07DeepDepths = []int{1024, 10, 1500, 500, 1023, 5000, 1000}
+var c07DeepDepthsQuick = []int{1024, 10, 1023, 500, 1000}
 
 func c07InsertField(v *pgVal, f *pgField, x *pgVal) {
 	i := 0
@@ -556,7 +558,11 @@ func genC07(r *rng, n int) {
 			var deepLeaf *pgVal
 			var deepSpine [][]c07Step
 			if deepSchema && k == 0 {
-				deep = c07DeepDepths[deepCount%len(c07DeepDepths)]
+				depths := c07DeepDepthsQuick
+				if n >= 3000 { // thorough tier
+					depths = c07DeepDepths
+				}
+				deep = depths[deepCount%len(depths)]
 				deepCount++
 				val, deepLeaf, deepSpine = c07DeepValue(vr, c, deep)
 			}
